@@ -20,6 +20,10 @@ let methods = [
   (n_of_int 4, { m_cmd = BOUND; m_locok = false });
   (n_of_int 5, { m_cmd = BIND; m_locok = false });
   (n_of_int 6, { m_cmd = UNBIND; m_locok = false });
+  (n_of_int 7, { m_cmd = BOUND; m_locok = false });
+  (n_of_int 8, { m_cmd = BIND; m_locok = false });
+  (n_of_int 9, { m_cmd = UNBIND; m_locok = false });
+  (n_of_int 10, { m_cmd = BOUND; m_locok = false });
 ]
 
 let parse_header (t : string list) : config option =
